@@ -18,7 +18,12 @@ const (
 	// FaultBodyCut: status line and headers arrive as usual (Content-Length of the whole body), the connection is
 	// dropped before the body is complete - a transport error after the response headers.
 	FaultBodyCut = "body_cut"
+	// FaultBloat: the body is BloatBytes longer than usual (same padding as Request.RespPad).
+	FaultBloat = "bloat"
 )
+
+// BloatBytes is what FaultBloat adds to a body.
+const BloatBytes = 4000
 
 // Marker is contained in every unfaulted body.
 const Marker = "ok-marker"
@@ -77,10 +82,18 @@ func MakeReply(def *Request, fresh string, num int, fault string, status int) Re
 	if fault == FaultNoMarker {
 		mark = "nothing"
 	}
+	pad := def.RespPad
+	if fault == FaultBloat {
+		pad += BloatBytes
+	}
 	if def.RespKind == "html" {
 		r.Header["Content-Type"] = "text/html"
-		r.Body = fmt.Sprintf(`<html><body><div class="data">D%s</div><ul><li>L%sa</li><li>L%sb</li></ul><span id="s">S%s</span><p>%s</p></body></html>`,
-			fresh, fresh, fresh, fresh, mark)
+		padding := ""
+		if pad > 0 {
+			padding = "<!--" + strings.Repeat("p", pad) + "-->"
+		}
+		r.Body = fmt.Sprintf(`<html><body><div class="data">D%s</div><ul><li>L%sa</li><li>L%sb</li></ul><span id="s">S%s</span><p>%s</p>%s</body></html>`,
+			fresh, fresh, fresh, fresh, mark, padding)
 		return r
 	}
 	r.Header["Content-Type"] = "application/json"
@@ -88,7 +101,11 @@ func MakeReply(def *Request, fresh string, num int, fault string, status int) Re
 	if fault == FaultObjString {
 		obj = fmt.Sprintf(`"P%s"`, fresh)
 	}
-	r.Body = fmt.Sprintf(`{"tok": "J%s", "num": %d, "obj": %s, "arr": ["A%sa", "A%sb"], "mark": "%s"}`, fresh, num, obj, fresh, fresh, mark)
+	padding := ""
+	if pad > 0 {
+		padding = `, "pad": "` + strings.Repeat("p", pad) + `"`
+	}
+	r.Body = fmt.Sprintf(`{"tok": "J%s", "num": %d, "obj": %s, "arr": ["A%sa", "A%sb"], "mark": "%s"%s}`, fresh, num, obj, fresh, fresh, mark, padding)
 	return r
 }
 
